@@ -105,7 +105,7 @@ class GlobalContext:
             func.trigger_start()
         self.triggers_delay_start = set()
 
-        for dm in self.dms_delay_start:
+        for dm in sorted(self.dms_delay_start, key=lambda dm: getattr(dm, "seq", 0)):
             Function.hass.async_create_task(dm.start())
         self.dms_delay_start = set()
 
